@@ -442,7 +442,7 @@ func main() {
 	}
 
 	// ---------------- generated transactions
-	n := run.N(1500, 60000)
+	n := run.N(1500, 20000)
 	for i := 0; i < n; i++ {
 		tt := types[rng.Intn(len(types))]
 		if rng.Chance(35) {
@@ -556,7 +556,7 @@ func main() {
 	}
 
 	// ---------------- getTransactionFee directly
-	for i := 0; i < run.N(400, 20000); i++ {
+	for i := 0; i < run.N(400, 6000); i++ {
 		var outs, refs []int64
 		for j := rng.Intn(6); j > 0; j-- {
 			outs = append(outs, pickAmount(rng))
@@ -610,7 +610,7 @@ func main() {
 	}
 
 	// ---------------- blockchain.GetTxFee (wrapping sums, per asset)
-	for i := 0; i < run.N(300, 10000); i++ {
+	for i := 0; i < run.N(300, 4000); i++ {
 		type av struct {
 			v   int64
 			ela bool
@@ -673,6 +673,7 @@ func main() {
 		early(run, st, sh, next, rng, fx)
 		e2e(run, st, rng, fx)
 		fx.Close()
+		blockPath(run, st)
 	}
 	st.Traces = st.Evals
 	sh.Flush()
